@@ -83,6 +83,28 @@ def install_probe(fa, fired):
         return 0
 
 
+def run_pwd_files(text, salt, **kw):
+    """The same through anonymize_files on a real file that also holds a NUL byte and other control characters on
+    lines of their own (a console capture): what is written must not depend on them."""
+    import os
+    import tempfile
+
+    nc = load.nc()
+    os.makedirs(os.path.join(load.VERIF, ".work"), exist_ok=True)
+    with tempfile.TemporaryDirectory(dir=os.path.join(load.VERIF, ".work")) as d:
+        with open(os.path.join(d, "in.cfg"), "w", encoding="utf-8", newline="") as f:
+            f.write("banner motd ^C\x00 console capture \x07\x1b[0m ^C\n" + text)
+        with LogCapture() as cap:
+            nc.af.anonymize_files(os.path.join(d, "in.cfg"), os.path.join(d, "out.cfg"), True, False, salt=salt, **kw)
+        try:
+            with open(os.path.join(d, "out.cfg"), encoding="utf-8", newline="") as f:
+                out = f.read()
+        except OSError:
+            out = ""
+    # drop the banner line again so that line numbers agree with the document
+    return out.split("\n", 1)[1] if "\n" in out else out, cap.records, None
+
+
 def run_pwd(text, salt, fired=None, **kw):
     nc = load.nc()
     with LogCapture() as cap:
@@ -156,6 +178,10 @@ def make_texts(case):
             "eol": "\n",
             # the value space is "all printable non-space ASCII": now and then a text secret is very short, starts
             # with '$', repeats a piece of its own line's keywords, or equals the user name standing next to it
+            # one blank between two words of the statement is some OTHER white-space character (a pasted vertical tab,
+            # form feed, file/group/record separator, NEL, line/paragraph separator, no-break space)
+            "xsep": (srng.choice(["\x0b", "\x0c", "\x1c", "\x1d", "\x1e", "\x85", "\u2028", "\u2029", "\xa0", "\t"]), srng.randrange(6))
+            if srng.random() < 0.12 else None,
             "special": srng.choice([None] * 7 + ["short", "dollar-word", "ctxsub", "recur-user"]),
             "sp_seed": srng.getrandbits(32),
         })
@@ -213,6 +239,14 @@ def make_texts(case):
             if (st["lead"] or st["tail"]) and not case.get("straddle") and form["quote"]:
                 ind = len(line) - len(line.lstrip())
                 line = line[:ind] + st["lead"] + line[ind:] + st["tail"]
+            if st["xsep"] and not case.get("straddle"):
+                ch, k = st["xsep"]
+                ind = len(line) - len(line.lstrip())
+                # single blanks between two words (slot texts never contain blanks)
+                pos = [i for i in range(max(ind, 1), len(line) - 1) if line[i] == " " and line[i - 1] != " " and line[i + 1] != " "]
+                if pos:
+                    i = pos[k % len(pos)]
+                    line = line[:i] + ch + line[i + 1:]
             if case.get("straddle"):
                 # same padding for both valuations (computed from the first one): the secret of V1 straddles
                 # the boundary at a chosen fraction of its length
@@ -308,15 +342,21 @@ def check_case(ctx, case):
     kw = {"undo_ip_anon": True} if case["sseed"] % 5 == 0 else {}  # password removal is also due in an undo run (-u -p)
     if kw:
         ctx.count("documents_in_undo_mode")
+    via_files = case["sseed"] % 7 == 3 and not case.get("straddle")
+    if via_files:
+        ctx.count("documents_through_anonymize_files")
     for t in texts:
-        o, lg, _ = run_pwd(t, case["salt"], fired=fired if not outs else None, **kw)
+        if via_files:
+            o, lg, _ = run_pwd_files(t, case["salt"], **kw)
+        else:
+            o, lg, _ = run_pwd(t, case["salt"], fired=fired if not outs else None, **kw)
         outs.append(o)
         logs.append(lg)
     for gi in fired["set"]:
         ctx.setadd("pattern_groups_fired", "%02d" % gi)
     if fired["n"]:
         ctx.info["pattern_groups_total"] = fired["n"]
-    else:
+    elif not via_files:
         ctx.mark_unreached("pattern-group probe (compiled_regexes not reachable)")
     ctx.ev()
     ctx.count("documents_compared")
